@@ -141,6 +141,7 @@ pub fn gen_read(seed: u64, id: usize) -> CaseOut {
     let mut rep = Replica::new(InMemoryStorage::new());
     let ntasks = rng.range(1, 3);
     let mut maps: Vec<BTreeMap<String, String>> = vec![];
+    let mut via_pending: Vec<usize> = vec![];
     let mut ops = vec![];
     for u in 0..ntasks {
         ops.push(Operation::Create { uuid: uuid_of(u) });
@@ -160,8 +161,15 @@ pub fn gen_read(seed: u64, id: usize) -> CaseOut {
             let v = if rng.chance(15) { "".to_string() } else { vals[rng.below(vals.len())].clone() };
             m.insert(k, v);
         }
+        // some of the deleted tasks are pending first (they sit in the working set) and are only
+        // deleted after the sync below, with no working-set rebuild before the expiry
+        let via = m.get("status").map(|x| x == "deleted").unwrap_or(false) && rng.chance(50);
         for (k, v) in &m {
-            ops.push(Operation::Update { uuid: uuid_of(u), property: k.clone(), value: Some(v.clone()), old_value: None, timestamp: Utc::now() });
+            let v0 = if via && k == "status" { "pending".to_string() } else { v.clone() };
+            ops.push(Operation::Update { uuid: uuid_of(u), property: k.clone(), value: Some(v0), old_value: None, timestamp: Utc::now() });
+        }
+        if via {
+            via_pending.push(u);
         }
         maps.push(m);
     }
@@ -286,6 +294,7 @@ pub fn gen_expire(seed: u64, id: usize) -> CaseOut {
     let statuses = [Some("deleted"), Some("deleted"), Some("deleted"), Some("pending"), Some("completed"), Some("recurring"), Some("Deleted"), Some("bogus"), None];
     let ntasks = rng.range(2, 6);
     let mut maps: Vec<BTreeMap<String, String>> = vec![];
+    let mut via_pending: Vec<usize> = vec![];
     let mut ops = vec![];
     for u in 0..ntasks {
         ops.push(Operation::Create { uuid: uuid_of(u) });
@@ -299,8 +308,15 @@ pub fn gen_expire(seed: u64, id: usize) -> CaseOut {
         if rng.chance(50) {
             m.insert("description".to_string(), "d".to_string());
         }
+        // some of the deleted tasks are pending first (they sit in the working set) and are only
+        // deleted after the sync below, with no working-set rebuild before the expiry
+        let via = m.get("status").map(|x| x == "deleted").unwrap_or(false) && rng.chance(50);
         for (k, v) in &m {
-            ops.push(Operation::Update { uuid: uuid_of(u), property: k.clone(), value: Some(v.clone()), old_value: None, timestamp: Utc::now() });
+            let v0 = if via && k == "status" { "pending".to_string() } else { v.clone() };
+            ops.push(Operation::Update { uuid: uuid_of(u), property: k.clone(), value: Some(v0), old_value: None, timestamp: Utc::now() });
+        }
+        if via {
+            via_pending.push(u);
         }
         maps.push(m);
     }
@@ -325,6 +341,11 @@ pub fn gen_expire(seed: u64, id: usize) -> CaseOut {
     }
     if !bops.is_empty() {
         block_on(b_.commit_operations(bops)).expect("commit b");
+    }
+    if !via_pending.is_empty() {
+        let dops: Vec<Operation> = via_pending.iter().map(|u| Operation::Update { uuid: uuid_of(*u), property: "status".into(),
+            value: Some("deleted".into()), old_value: Some("pending".into()), timestamp: Utc::now() }).collect();
+        block_on(a.commit_operations(dops)).expect("commit deletions");
     }
     block_on(a.expire_tasks()).expect("expire");
     let after: Vec<usize> = {
